@@ -127,7 +127,7 @@ def payload_ok(f, w, var, fields, W_fn, log_bb, log_term=None):
         # payload derives from the result of the shrinking / replacing call itself
         if w.get('callee') and (kind == 'shrink' or w['how'].split(':')[-1] in ('replace', 'take')):
             for x in expr_walk(fe):
-                if isinstance(x, tuple) and x[0] == 'call' and x[1] == w['callee'] and x[3] == w['bb']:
+                if isinstance(x, tuple) and x[0] == 'call' and x[1] == w['callee'] and x[3] == f.obb(w['bb']):
                     return True, 'payload is the value returned by %s' % short(w['callee'])
         if kind != 'shrink':
             # overwrite through mem::swap: payload is the swap partner
@@ -261,7 +261,7 @@ def run(rep, facts, tier):
         ws = [w for w in W.get(fn, []) if is_machine(w)]
         logs = log_sites(f)
         rec = recording_regions(f)
-        for (bb, var, fields, t, e, pure) in logs:
+        for (bb, var, fields, t, e, pure, built) in logs:
             logged_variants.add(var)
         for w in ws:
             n_writes += 1
@@ -271,7 +271,9 @@ def run(rep, facts, tier):
             # candidate logs: same paths (dominance either way), under recording
             cands = []
             cond_logs = []
-            for (bb, var, fields, t, e, pure) in logs:
+            for (bb, var, fields, t, e, pure, built) in logs:
+                if built is not None and not any(f.dominates(w['bb'], d) or f.dominates(d, w['bb']) or d == w['bb'] for d in built):
+                    continue      # this alternative of a computed entry is built on another branch than the write
                 if not pure:
                     # inside the helper the push depends on more than the recording state
                     if f.dominates(w['bb'], bb) or f.dominates(bb, w['bb']):
@@ -342,7 +344,7 @@ def run(rep, facts, tier):
                 break
             rep.add('C02.R2', key, good, '; '.join(verdicts[-2:]), fn, w['at'])
         # logs without a write in this function
-        for (bb, var, fields, t, e, pure) in logs:
+        for (bb, var, fields, t, e, pure, built) in logs:
             if fn in ('state::State::rnext',):
                 continue
             if fn in _FX[1] and fx.callers().get(fn):
